@@ -139,12 +139,14 @@ def evaluate(t, env, constants=None):
         a, ea, da = evaluate(t[1], env, constants)
         b, eb, db = evaluate(t[2], env, constants)
         d = min(da, db)
+        # sums: the bound uses the magnitudes of the operands, not of the result, so that it holds for every
+        # association order of a chain a+b-c (the Evaluator reduces '-' before '+': a+b-c is a+(b-c))
         if k == "+":
             v = a + b
-            return _fin(v), ea + eb + abs(v), d
+            return _fin(v), ea + eb + abs(a) + abs(b), d
         if k == "-":
             v = a - b
-            return _fin(v), ea + eb + abs(v), d
+            return _fin(v), ea + eb + abs(a) + abs(b), d
         if k == "*":
             v = a * b
             return _fin(v), abs(b) * ea + abs(a) * eb + abs(v), d
